@@ -245,5 +245,6 @@ func (rl *Shell) handleUndefined(bind inputrc.Bind, cmd func()) {
 	if rl.Keymap.Local() == keymap.Isearch {
 		rl.Hint.Reset()
 		rl.completer.Reset()
+		rl.line, rl.cursor, rl.selection = rl.completer.GetBuffer()
 	}
 }
